@@ -768,8 +768,14 @@ class Sandbox:
             # What an earlier call returned: student code gets the value
             # itself back, not the instructor's proxy for it
             value = value._actual_value
-        if len(repr(value)) <= self.MAXIMUM_TEMPORARY_LENGTH and self._is_literal(repr(value)):
-            return repr(value)
+        try:
+            value_repr = repr(value)
+        except Exception:
+            # A student object whose __repr__ fails is passed as it is
+            value_repr = None
+        if (value_repr is not None and len(value_repr) <= self.MAXIMUM_TEMPORARY_LENGTH
+                and self._is_literal(value_repr)):
+            return value_repr
         key = '_temporary_{}_{}'.format(category, name)
         if key in self.data:
             self._backup_variables[key] = self.data[key]
